@@ -182,6 +182,14 @@ def H_pipeline(ctx, cfg):
         for li, (a, b) in enumerate(zip(l2, l3)):
             ctx.prove(a.shape == b.shape and z3.And([V.eq_elems(x, y) for x, y in zip(a.ravel(), b.ravel())]),
                       f"scale-{li}-unchanged-by-repeating-the-steps")
+    # ---- repeating compute-scales with the gzip option toggled still leaves the same decoded contents
+    toggled = [o for o in acc_o if o != "--no-gzip"] + ([] if "--no-gzip" in acc_o else ["--no-gzip"])
+    _run(ctx, W, cs_, ["prog", p2] + toggled + comp_o, "compute-scales-gzip-toggled")
+    _, l4 = _decode_all(ctx, W, p2, "after-toggled-repeat", ropts)
+    if l4 is not None:
+        for li, (a, b) in enumerate(zip(l2, l4)):
+            ctx.prove(a.shape == b.shape and z3.And([V.eq_elems(x, y) for x, y in zip(a.ravel(), b.ravel())]),
+                      f"scale-{li}-unchanged-by-repeating-with-gzip-toggled")
     # ---- read-only commands leave the dataset untouched
     before = _files(W, p2)
     _run(ctx, W, st, ["prog", p2], "scale-stats")
@@ -230,10 +238,12 @@ def replay(cfg, cex):
         steps = [(pyr, ["prog", fn, p1] + opts), (v2p, ["prog", fn, p2, "--generate-info"] + acc_o),
                  (gsi, ["prog", os.path.join(p2, "info_fullres.json"), p2] + gen_o), (v2p, ["prog", fn, p2] + acc_o),
                  (cs_, ["prog", p2] + acc_o + comp_o)]
+        toggled = [o for o in acc_o if o != "--no-gzip"] + ([] if "--no-gzip" in acc_o else ["--no-gzip"])
+        steps += [(v2p, ["prog", fn, p2] + acc_o), (cs_, ["prog", p2] + acc_o + comp_o), (cs_, ["prog", p2] + toggled + comp_o)]
         for mod, argv in steps:
             rc = run(mod, argv)
             if rc != 0:
-                return True, f"{mod.__name__.rsplit('.', 1)[1]} {argv[3:]} exited with {rc}"
+                return True, f"{mod.__name__.rsplit('.', 1)[1]} {argv[2:]} exited with {rc}"
         ropts = dict(flat="--flat" in opts, gzip="--no-gzip" not in opts)
         infos, data = [], []
         for p in (p1, p2):
